@@ -64,6 +64,32 @@ struct SimElls;
 
 FILES = {"au/units/%s.hh" % STEM: HEADER, "au/units/%s_fwd.hh" % STEM: FWD}
 
+# A second revision of the same header (a release unpacked over a vendored copy, a branch switch,
+# `cp -p` of a colleague's file): another magnitude and another label, so that a generator which
+# serves the first revision from anything it remembered is seen by the probe's output.
+HEADER_REV2 = HEADER.replace("mag<45>()", "mag<47>()").replace('"simell"', '"simel2"')
+assert HEADER_REV2 != HEADER
+
+BASE_MTIME = 1_800_000_000
+_MTIME_SHIFT = {"older": -86400, "equal": 0, "newer": 150_000_000}  # "newer" is later than anything the tool wrote in between (the overlay stamps its files from 1.9e9)
+
+
+def rev_of(spec):
+    """`added_unit` in a plan is True (first revision) or {"rev": 2, "mtime": older|equal|newer}."""
+    return int(spec.get("rev", 1)) if isinstance(spec, dict) else 1
+
+
+def files(spec):
+    if rev_of(spec) == 2:
+        return {"au/units/%s.hh" % STEM: HEADER_REV2, "au/units/%s_fwd.hh" % STEM: FWD}
+    return FILES
+
+
+def mtime_of(spec):
+    if isinstance(spec, dict) and rev_of(spec) == 2:
+        return BASE_MTIME + _MTIME_SHIFT[spec.get("mtime", "older")]
+    return BASE_MTIME
+
 
 def probe_lines():
     return ['    std::printf("added-unit %d [%s]\\n", au::sim_ells(2).in(au::seconds), au::unit_label(au::SimElls{}));']
